@@ -391,6 +391,20 @@ def mpf_sgn (f : F) : Int := if f.size < 0 then -1 else if f.size > 0 then 1 els
 /-- `while (up[0] == 0) { up++; usize--; }` -/
 def stripLow (l : List Nat) : List Nat := l.dropWhile (· == 0)
 
+/-- mpf/cmp.c:89-107: compare the mantissas (low zero limbs already skipped) aligned at their high ends. -/
+def mpf_cmp_limbs (up vp : List Nat) (usign : Int) : Int :=
+  let un := up.length
+  let vn := vp.length
+  if un > vn then                                                     -- :89
+    let c := Mpir.cmp (up.drop (un - vn)) vp
+    if c = 0 then usign else if c > 0 then usign else -usign          -- :92-93, :107
+  else if vn > un then                                                -- :95
+    let c := Mpir.cmp up (vp.drop (vn - un))
+    if c = 0 then -usign else if c > 0 then usign else -usign         -- :98-99, :107
+  else
+    let c := Mpir.cmp up vp                                           -- :103
+    if c = 0 then 0 else if c > 0 then usign else -usign              -- :104-107
+
 /-- mpf_cmp (mpf/cmp.c:25-108) -/
 def mpf_cmp (u v : F) : Int :=
   let usize := u.size
@@ -402,20 +416,7 @@ def mpf_cmp (u v : F) : Int :=
     let usign : Int := if usize ≥ 0 then 1 else -1                        -- :60
     if u.exp > v.exp then usign                                           -- :63
     else if u.exp < v.exp then -usign                                     -- :65
-    else
-      let up := stripLow u.d                                              -- :77-81
-      let vp := stripLow v.d                                              -- :82-86
-      let un := up.length
-      let vn := vp.length
-      if un > vn then                                                     -- :89
-        let c := Mpir.cmp (up.drop (un - vn)) vp
-        if c = 0 then usign else if c > 0 then usign else -usign          -- :92-93, :107
-      else if vn > un then                                                -- :95
-        let c := Mpir.cmp up (vp.drop (vn - un))
-        if c = 0 then -usign else if c > 0 then usign else -usign         -- :98-99, :107
-      else
-        let c := Mpir.cmp up vp                                           -- :103
-        if c = 0 then 0 else if c > 0 then usign else -usign              -- :104-107
+    else mpf_cmp_limbs (stripLow u.d) (stripLow v.d) usign                -- :77-86 skip low zeros; :89-107
 
 /-- mpf_cmp_ui (mpf/cmp_ui.c:25-91, no nails) -/
 def mpf_cmp_ui (u : F) (v : Nat) : Int :=
